@@ -150,7 +150,11 @@ func parseCertificates(pemData []byte) (*Certificate, error) {
 // Parse certificates from DER
 func parseCertificatesDer(der []byte) (*Certificate, error) {
 	var certs []*x509.Certificate
-	if bytes.Contains(der[:32], pkcs7SignedData) {
+	prefix := der
+	if len(prefix) > 32 {
+		prefix = prefix[:32]
+	}
+	if bytes.Contains(prefix, pkcs7SignedData) {
 		psd, err := pkcs7.Unmarshal(der)
 		if err != nil {
 			return nil, err
